@@ -107,3 +107,34 @@ M("tconnect-errno-lost", ["C06"], "libxcm/tp/tcp/tconnect.c",
   "\t    track_abort_connect(track);\n\t    track_connect_next(track);\n\t} else\n\t    LOG_CONN_IN_PROGRESS")
 M("tls-receive-ignores-bad", ["C06"], TLS, "    TP_RET_ERR_IF(ts->conn.bad, ts->conn.badness_reason);\n\n    if (try_finish_send(s) < 0 && errno != EAGAIN)\n\treturn errno == EPIPE ? 0 : -1;",
   "    if (try_finish_send(s) < 0 && errno != EAGAIN)\n\treturn errno == EPIPE ? 0 : -1;")
+
+# ---- C04 / C16 / C05 (event loop)
+XPOLL = "libxcm/core/xpoll.c"
+XTPC = "libxcm/tp/common/xcm_tp.c"
+TCONN = "libxcm/tp/tcp/tconnect.c"
+UTIL = "common/util.c"
+M("tcp-update-no-sendable-for-pending", ["C04"], TCP, "\tbtcp_condition |= XCM_SO_SENDABLE;\n", "")
+M("tls-update-no-sendable-for-pending", ["C04"], TLS, "\tbtls_condition |= XCM_SO_SENDABLE;\n", "")
+M("btls-update-ignores-ssl-pending", ["C04"], BTLS,
+  "\telse if (s->condition&XCM_SO_RECEIVABLE &&\n\t\t SSL_has_pending(bts->conn.ssl))\n\t    ready = true;\n", "\telse if (0)\n\t    ready = true;\n")
+M("btcp-update-no-bell-when-resolved", ["C04"], BTCP, "\tready = xcm_dns_query_completed(bts->conn.query);\n", "\tready = false;\n")
+M("btcp-update-no-bell-when-closed", ["C04"], BTCP,
+  "    case conn_state_closed:\n    case conn_state_bad:\n\tready = true;\n\tbreak;\n    default:\n\tut_assert(0);\n    }\n\n    if (ready) {\n\txpoll_bell_reg_mod(s->xpoll, bts->conn.bell_reg_id, true);",
+  "    case conn_state_closed:\n    case conn_state_bad:\n\tready = false;\n\tbreak;\n    default:\n\tut_assert(0);\n    }\n\n    if (ready) {\n\txpoll_bell_reg_mod(s->xpoll, bts->conn.bell_reg_id, true);")
+M("tp-receive-no-auto-update", ["C04"], XTPC,
+  "    consider_ctl(s, rc == 0 || (rc < 0 && errno != EAGAIN),\n\t\t rc < 0 && errno == EAGAIN);\n\n    consider_auto_update(s);\n\n    return rc;\n}\n\nvoid xcm_tp_socket_update",
+  "    consider_ctl(s, rc == 0 || (rc < 0 && errno != EAGAIN),\n\t\t rc < 0 && errno == EAGAIN);\n\n    return rc;\n}\n\nvoid xcm_tp_socket_update")
+M("tconnect-connecting-fd-epollin", ["C04"], TCONN, "track->fd_reg_id = xpoll_fd_reg_add(track->xpoll, fd, EPOLLOUT);", "track->fd_reg_id = xpoll_fd_reg_add(track->xpoll, fd, EPOLLIN);")
+M("await-skips-update", ["C04", "C16"], XCM, "static void await(struct xcm_socket *s, int condition)\n{\n    s->condition = condition;\n    xcm_tp_socket_update(s);\n}",
+  "static void await(struct xcm_socket *s, int condition)\n{\n    bool changed = s->condition != condition;\n    s->condition = condition;\n    if (changed && condition != 0)\n\txcm_tp_socket_update(s);\n}")
+M("xpoll-eventfd-always-watched", ["C16"], XPOLL, "\tint event = has_ringing_bell(xpoll) ? EPOLLIN : 0;\n", "\tint event = EPOLLIN;\n")
+M("btls-update-ready-whenever-awaiting", ["C16"], BTLS, "\telse if (s->condition == bts->conn.ssl_condition)\n\t    bts->btcp_socket->condition = bts->conn.ssl_wants;", "\telse if (s->condition == bts->conn.ssl_condition)\n\t    ready = true;")
+M("btcp-update-epollout-for-receivable", ["C16"], BTCP, "\tif (s->condition&XCM_SO_RECEIVABLE)\n\t    fd_event |= EPOLLIN;", "\tif (s->condition&XCM_SO_RECEIVABLE)\n\t    fd_event |= EPOLLIN|EPOLLOUT;")
+M("ux-server-event-never", ["C16", "C04"], UX, "    return condition == XCM_SO_ACCEPTABLE ? EPOLLIN : 0;", "    return 0;")
+M("ux-conn-event-sendable-ignored", ["C16"], UX, "    if (condition & XCM_SO_SENDABLE)\n\tevent |= EPOLLOUT;\n", "")
+M("receive-waits-when-nonblocking", ["C05"], XCM,
+  "    if (conn_s->is_blocking) {\n\tfor (;;) {\n\t    if (socket_wait(conn_s, XCM_SO_RECEIVABLE) < 0)\n\t\treturn -1;",
+  "    if (conn_s->is_blocking || xcm_tp_socket_is_bytestream(conn_s)) {\n\tfor (;;) {\n\t    if (socket_wait(conn_s, XCM_SO_RECEIVABLE) < 0)\n\t\treturn -1;")
+M("btcp-accept-blocking-fd", ["C05"], BTCP, "ut_accept(server_bts->fd, NULL, NULL, SOCK_NONBLOCK)", "ut_accept(server_bts->fd, NULL, NULL, 0)")
+M("ut-established-waits", ["C05"], UTIL, "    UT_PROTECT_ERRNO(poll(&pfd, 1, 0));\n\n    if (pfd.revents & POLLOUT || pfd.revents & POLLERR)", "    UT_PROTECT_ERRNO(poll(&pfd, 1, 10));\n\n    if (pfd.revents & POLLOUT || pfd.revents & POLLERR)")
+M("tconnect-blocking-socket", ["C05"], TCONN, "return socket(family, SOCK_STREAM | SOCK_NONBLOCK, IPPROTO_TCP);", "return socket(family, SOCK_STREAM, IPPROTO_TCP);")
